@@ -340,11 +340,12 @@ def run_line(case, ctx):
 
 # ------------------------------------------------------------------------------------------------ raman
 
-def raman_fibre(rng, pumps, lumped=None, length_km=None, cls=RamanFiber, loss_coef=None):
+def raman_fibre(rng, pumps, lumped=None, length_km=None, cls=RamanFiber, loss_coef=None, att_in=0.0, con_in=0.0,
+                con_out=0.0):
     length_km = length_km or G.rnd(rng, 40, 100, 2)
     p = {'length': length_km, 'length_units': 'km', 'loss_coef': loss_coef or G.pick(rng, [0.2, 0.19, 0.21]),
          'pmd_coef': 1.265e-15,
-         'con_in': 0.0, 'con_out': 0.0, 'att_in': 0.0}
+         'con_in': con_in, 'con_out': con_out, 'att_in': att_in}
     if lumped:
         p['lumped_losses'] = lumped
     if cls is RamanFiber:
@@ -487,17 +488,34 @@ def run_raman(case, ctx):
     if rng.random() < 0.5:
         pos_km = round(length * G.rnd(rng, 0.2, 0.8, 2), 1)
         lumped = [{'position': pos_km, 'loss': 0.5}] * rng.choice([1, 2])
-    eoff, poff = raman_fibre(rng2, pumps, length_km=length, loss_coef=fp['loss_coef'], lumped=lumped)
+    # (input attenuation and connectors set by the user on a Raman fibre are part of its budget like on any fibre)
+    att = G.pick(rng, [0.0, 0.0, 1.5, 3.0])
+    cin, cout = G.pick(rng, [0.0, 0.5]), G.pick(rng, [0.0, 0.25])
+    eoff, poff = raman_fibre(rng2, pumps, length_km=length, loss_coef=fp['loss_coef'], lumped=lumped, att_in=att,
+                             con_in=cin, con_out=cout)
     si = make_si(low)
     pin = np.array(si.pch)
     out = eoff(si)
-    budget = poff['loss_coef'] * length + sum(x['loss'] for x in (lumped or []))
+    budget = att + cin + cout + poff['loss_coef'] * length + sum(x['loss'] for x in (lumped or []))
     got = 10 * np.log10(pin / out.pch)
     ctx.count('raman_off_checks')
     if np.max(np.abs(got - budget)) > 1e-9 or np.any(out._ase_ratio != 0):
         ctx.violation('raman-off-budget', f'RamanFiber with the Raman computation off: attenuation {got[0]:.9f} dB, '
                       f'budget {budget:.9f} dB, ASE share {float(np.max(out._ase_ratio)):.3e}',
                       {'fibre': poff, 'pumps': pumps})
+    # -- Raman on, low power: an input attenuation of x dB in front of the (pumped) fibre costs exactly x dB
+    set_sim('perturbative', 2, 100)
+    xatt = G.pick(rng, [1.0, 2.5, 3.0])
+    outs = []
+    for a in (0.0, xatt):
+        e_a, _ = raman_fibre(rng2, pumps, length_km=length, loss_coef=fp['loss_coef'], att_in=a)
+        si_a = make_si(low)
+        p_in = np.array(si_a.pch)
+        outs.append(10 * np.log10(p_in / e_a(si_a).signal))      # (signal power: the total also holds the Raman ASE)
+    ctx.count('raman_input_attenuation_checks')
+    if np.max(np.abs(outs[1] - outs[0] - xatt)) > 1e-5:
+        ctx.violation('raman-input-attenuation', f'pumped RamanFiber, low power: an input attenuation of {xatt} dB changes '
+                      f'the loss by {float((outs[1] - outs[0])[0]):.6f} dB', {'pumps': pumps, 'length': length})
     # -- counter-propagating pumps only add gain
     set_sim('perturbative', 2, 100)
     base, _ = raman_fibre(rng2, [], length_km=length, loss_coef=fp['loss_coef'])
